@@ -6,6 +6,9 @@ import Sqljson.Props.C07b
 import Sqljson.Props.C08b
 import Sqljson.Props.C12b
 import Sqljson.Props.C14b
+import Sqljson.Props.C01b
+import Sqljson.Props.C10b
+import Sqljson.Props.C15b
 import Sqljson.Props.C01
 open Sqljson
 #audit_ns C01 Sqljson.C01
@@ -27,3 +30,7 @@ open Sqljson
 #audit_ns C01 Sqljson.C08b
 #audit_ns C01 Sqljson.C12b
 #audit_ns C01 Sqljson.C14b
+#audit_ns C01 Sqljson.C10b
+#audit_ns C01 Sqljson.C15b
+#audit_ns C01 Sqljson.C01b
+#audit C01 [Sqljson.Exec.Refine.refine_run]
